@@ -89,6 +89,8 @@ def generate(batch: str, r: Rng, idx: int, tier: str) -> Dict[str, Any]:
     cfg = {"press": r.choice([1, 1, 2, 3, 6]), "release": r.choice([1, 2, 3, 6]),
            "repeat_delay": r.choice([1, 2, 6, 24]), "repeat_interval": r.choice([1, 2, 6]),
            "active_high": r.chance(3, 4)}
+    if ex == "rs-kbd" and r.child("raw").chance(1, 6):
+        cfg["raw_kil"] = True      # host-side option of the Rust matrix: KIL from the physical key state
     cols = sorted(set(k >> 3 for k in keys))
     all_mask = 0
     for c in cols:
@@ -232,7 +234,7 @@ def execute(scn: Dict[str, Any]) -> Dict[str, Any]:
         return machine.run_machine(scn)
     if scn["exec"] == "py-kbd":
         return {"trace": _run_py(scn)}
-    out = host().call([["k.new", 0, scn["cfg"]], ["k.script", 0, scn["keys"], bool(scn["kb_irq"]), scn["ops"]]])
+    out = host().call([["k.new", 0, scn["cfg"]], ["k.script", 0, scn["keys"], bool(scn["kb_irq"]), scn["ops"], bool(scn["cfg"].get("raw_kil"))]])
     return {"trace": out[0]}
 
 
